@@ -20,6 +20,7 @@ type Env struct {
 	depth  int
 	inQuant bool
 	assumeHeld bool // evaluating the function's own precondition: held(mu) takes effect
+	rel    map[string]*relObs // relational clause: observation constants for r1()/r2()
 }
 
 var untypedInt = types.Typ[types.UntypedInt]
@@ -505,6 +506,18 @@ func (e *Env) evalCall(ex *SExpr) Val {
 			n := *e
 			n.inOld = true
 			return n.eval(args[0])
+		case "r1", "r2":
+			if e.rel == nil {
+				specFail("%s() outside a relational clause", fn.Tok)
+			}
+			o, ok := e.rel[args[0].String()]
+			if !ok {
+				specFail("relational observation %s not collected", args[0])
+			}
+			if fn.Tok == "r1" {
+				return o.c[0]
+			}
+			return o.c[1]
 		case "max", "min":
 			a, b := e.coerce(e.eval(args[0]), e.eval(args[1]))
 			if isFloat(a.Typ) || a.Typ == untypedFloat {
@@ -885,8 +898,17 @@ func (e *Env) evalOpaque(d *Define, vars map[string]Val, n *Env) Val {
 		specFail("opaque %s: scalar result expected", d.Name)
 	}
 	fname := "opaque." + sanitize(d.Name)
-	e.x.D.declareFun(fname, "("+strings.Join(argSorts, " ")+") "+ls[0].Sort)
+	isF := ls[0].Sort == "F"
+	rsort := ls[0].Sort
+	if isF {
+		// opaque float-valued spec functions are finite real-valued by construction
+		rsort = "Real"
+	}
+	e.x.D.declareFun(fname, "("+strings.Join(argSorts, " ")+") "+rsort)
 	term := "(" + fname + " " + strings.Join(argTerms, " ") + ")"
+	if isF {
+		term = "(fin " + term + ")"
+	}
 	res := Val{Typ: rt, L: []string{term}}
 	revealed := false
 	for _, r := range e.x.spec.Reveal {
@@ -902,7 +924,12 @@ func (e *Env) evalOpaque(d *Define, vars map[string]Val, n *Env) Val {
 		}
 		if !e.s.ranged[key] {
 			e.s.ranged[key] = true
-			e.s.pc = append(e.s.pc, sEq(term, body.L[0]))
+			if isF {
+				fc := fctx{e.s}
+				e.s.pc = append(e.s.pc, sImp(fc.isfin(body.L[0]), fc.same(term, body.L[0])))
+			} else {
+				e.s.pc = append(e.s.pc, sEq(term, body.L[0]))
+			}
 		}
 	}
 	return res
